@@ -424,6 +424,12 @@ def run_check(pid: str, tier: str, master: int, jobs: int, runs: int | None,
     print(f"{pid}: {n_eval} cases, {len(nontriv)} distinct non-trivial, {len(by_tag)} violation tags, "
           f"{sum(matched_known.values())} known-finding cases, wall {wall:.1f}s, exit {exit_code}", flush=True)
     faulthandler.cancel_dump_traceback_later()
+    try:
+        from ladsim import world as _world
+
+        _world.sweep_dead()
+    except Exception:  # noqa: BLE001
+        pass
     return exit_code
 
 
